@@ -258,6 +258,7 @@ type Profile struct {
 	PriorityProps float64
 	Fair          float64 // probability of fair / priority sort policies
 	TightMax      float64 // probability a queue gets a max
+	ACLs          float64 // probability that root is not open to everybody and queues carry their own ACLs
 }
 
 var (
@@ -464,6 +465,13 @@ func genConf(r *Rng, pf Profile, total Res) *ConfSpec {
 		root.SubmitACL = ""
 		root.AdminACL = "*"
 	}
+	aclP := 0.15
+	if pf.ACLs > 0 && r.Bool(pf.ACLs) {
+		// root is not open to everybody: access comes from the ACLs further down (or not at all)
+		root.SubmitACL = pick(r, []string{"", " ops", "alice", "alice,bob"})
+		root.AdminACL = pick(r, []string{"", "", "dave"})
+		aclP = 0.6
+	}
 	if r.Bool(pf.MaxApps / 2) {
 		root.MaxApps = uint64(r.Range(3, 8))
 	}
@@ -494,8 +502,11 @@ func genConf(r *Rng, pf Profile, total Res) *ConfSpec {
 				q.MaxApps = uint64(r.Range(1, 4))
 			}
 			q.Props = genProps(r, pf, leaf)
-			if r.Bool(0.15) {
+			if r.Bool(aclP) {
 				q.SubmitACL = pick(r, []string{"alice", "alice,bob dev", " ops", "*"})
+			}
+			if aclP > 0.5 && r.Bool(0.3) {
+				q.AdminACL = pick(r, []string{"carol", " qa", "bob dev", "*"})
 			}
 			effMax := parentMax.Clone()
 			if effMax == nil {
@@ -552,6 +563,14 @@ func genConf(r *Rng, pf Profile, total Res) *ConfSpec {
 	})
 	if !hasLeaf {
 		root.Children = append(root.Children, &QSpec{Name: "z"})
+	}
+	if pf.ACLs > 0 && r.Bool(0.5) {
+		// the queue applications fall back to when no rule matches
+		dq := &QSpec{Name: "default"}
+		if r.Bool(0.5) {
+			dq.SubmitACL = pick(r, []string{"alice", " ops", "*", "bob dev"})
+		}
+		root.Children = append(root.Children, dq)
 	}
 	// guarantees: assigned bottom-up so that sums of children never exceed the parent's own values
 	if pf.Guarantees > 0 {
